@@ -466,6 +466,16 @@ func (w *World) classifyStall(h uint64) string {
 			}
 		}
 		if seen && !hasHeight(dcH, h+1) {
+			// a twin block explains the mark whether or not a junk copy was delivered as well: since c3c43a6 only an
+			// APPLIED block marks its commitment, so look for the twin first (an applied one, k <= h)
+			for k := w.opt.InitialHeight; k <= w.prod.Height(); k++ {
+				if k == h+1 {
+					continue
+				}
+				if _, dk, err := w.prod.Store.GetBlockData(ctx, k); err == nil && len(dk.Txs) > 0 && bytes.Equal(dk.DACommitment(), dc) && k <= h {
+					return "C02/stall/tx-list-repeats-an-earlier-block"
+				}
+			}
 			if w.junkSame[h+1] {
 				return "C02/stall/junk-p2p-data-marked-genuine-commitment-seen"
 			}
@@ -473,7 +483,7 @@ func (w *World) classifyStall(h uint64) string {
 				if k == h+1 {
 					continue
 				}
-				if _, dk, err := w.prod.Store.GetBlockData(ctx, k); err == nil && len(dk.Txs) > 0 && bytes.Equal(dk.DACommitment(), dc) && (k <= h || w.datDel[k]) {
+				if _, dk, err := w.prod.Store.GetBlockData(ctx, k); err == nil && len(dk.Txs) > 0 && bytes.Equal(dk.DACommitment(), dc) && w.datDel[k] {
 					return "C02/stall/tx-list-repeats-an-earlier-block"
 				}
 			}
